@@ -133,8 +133,9 @@ impl ShortFileName {
                     return Err(FilenameError::InvalidCharacter);
                 }
                 '.' => {
-                    // Denotes the start of the file extension
-                    if (1..=Self::BASE_LEN).contains(&idx) {
+                    // Denotes the start of the file extension - there can be
+                    // only one
+                    if !seen_dot && (1..=Self::BASE_LEN).contains(&idx) {
                         idx = Self::BASE_LEN;
                         seen_dot = true;
                     } else {
